@@ -58,3 +58,61 @@ def check_unit(args):
             return len(keep), [("unit of %d programs: external declaration %d differs from the same program parsed alone: %s" % (
                 len(keep), i + 1, d[:120]), text)]
     return len(keep), []
+
+
+# ---- long lists: the i-th item of a list is parsed like the same item in a list of one, for every i
+# kind -> (template, separator, extractor of the list from the AST, extractor of the nodes one item contributes)
+def _lists():
+    return {
+        "params_proto": ("typedef int T ; void f ( %s ) ;", " , ", lambda a: a.ext[-1].type.args.params),
+        "args": ("typedef int T ; void f ( void ) { g ( %s ) ; }", " , ", lambda a: a.ext[-1].body.block_items[0].args.exprs),
+        "init_items": ("typedef int T ; int x [ ] = { %s } ;", " , ", lambda a: a.ext[-1].init.exprs),
+        "enumerators": ("typedef int T ; enum E { %s } ;", " , ", lambda a: a.ext[-1].type.values.enumerators),
+        "members": ("typedef int T ; struct S { %s } ;", " ", lambda a: a.ext[-1].type.decls),
+        "declarators": ("typedef int T ; int %s ;", " , ", lambda a: a.ext[1:]),
+        "block_items": ("typedef int T ; void f ( void ) { %s }", " ", lambda a: a.ext[-1].body.block_items),
+        "externals": ("typedef int T ; %s", " ", lambda a: a.ext[1:]),
+    }
+
+
+def check_list(args):
+    """(kind, [item spelling], seed) -> (n items, failures)."""
+    kind, items, seed = args
+    from pycparser import c_parser
+    tmpl, sep, get = _lists()[kind]
+    solo = {}
+    for it in set(items):
+        try:
+            solo[it] = [proj(x) for x in get(c_parser.CParser().parse(tmpl % it, "l.c"))]
+        except Exception:
+            solo[it] = None
+    items = [it for it in items if solo[it] is not None]
+    if not items:
+        return 0, []
+    text = tmpl % sep.join(items)
+    try:
+        got = [proj(x) for x in get(c_parser.CParser().parse(text, "l.c"))]
+    except Exception as e:
+        return len(items), [("%s list of %d items, each accepted alone, rejected: %s: %s" % (
+            kind, len(items), type(e).__name__, str(e).split(": ", 1)[-1][:60]), text)]
+    want = [x for it in items for x in solo[it]]
+    if len(got) != len(want):
+        return len(items), [("%s list of %d items: %d nodes in the AST, %d expected" % (kind, len(items), len(got), len(want)), text)]
+    for i, (g, w) in enumerate(zip(got, want)):
+        d = diff(w, g)
+        if d:
+            return len(items), [("%s list: node %d of %d differs from the same item in a list of one: %s" % (kind, i + 1, len(want), d[:120]), text)]
+    return len(items), []
+
+
+def list_jobs(kinds, spellings, rnd, per_kind, lo=40, hi=90):
+    """spellings: kind -> item spellings (harness/checks/c16.LISTS); returns jobs for check_list."""
+    jobs = []
+    for k in kinds:
+        sp = spellings[k]
+        for _ in range(per_kind):
+            n = rnd.randint(lo, hi)
+            jobs.append((k, [rnd.choice(sp) for _ in range(n)], rnd.randrange(1 << 30)))
+        for s in sp:                       # and each spelling repeated on its own
+            jobs.append((k, [s] * rnd.randint(lo, hi), 0))
+    return jobs
